@@ -1,43 +1,44 @@
 import Percival.Driver.Loop
-import Percival.Model.DH
-/-! `pmodel dh`: L1 part from `Spec.DH` (unblinded mathematical value), L2 part from the model of crypto_dh.c. -/
+import Percival.Model.DHStep
+/-! `pmodel dh`: L1 part from `Spec.DH` (unblinded mathematical value), L2 part from the model of crypto_dh.c.
+Thin by construction: `parse`, `Model.DHStep.stepOp`, `render`. -/
 namespace Percival.Driver.Dh
-open Percival Percival.Driver Percival.Model.DH
-open Percival.Spec.DH (ofBE)
+open Percival Percival.Driver Percival.Model.DHStep
 
-def specPow (a : Nat) (priv : List UInt8) : List UInt8 :=
-  toBE 256 (powMod a (Spec.DH.offset + ofBE priv) Spec.DH.p)
+/-- `FAIL` = the entropy source fails -/
+def optBytes (t : String) : Option (Option Bytes) :=
+  if t = "FAIL" then some none else (bytesOfHex t).map some
+
+def parse : List String → Option Op
+  | ["pub", priv, blind] =>
+      -- a failing blinding makes the call fail whatever the other argument is
+      if blind = "FAIL" then some (.pub [] none) else do pure (.pub (← bytesOfHex priv) (← optBytes blind))
+  | ["compute", pub, priv, blind] =>
+      if blind = "FAIL" then some (.compute [] [] none)
+      else do pure (.compute (← bytesOfHex pub) (← bytesOfHex priv) (← optBytes blind))
+  | ["generate", ent, blind] =>
+      if ent = "FAIL" || blind = "FAIL" then some (.generate none none)
+      else do pure (.generate (← optBytes ent) (← optBytes blind))
+  | ["sanity", pub] => do pure (.sanity (← bytesOfHex pub))
+  | ["g14"] => some .g14
+  | _ => none
 
 def showOpt : Option (List UInt8) → String
   | some b => "ok " ++ hexOfBytes b
   | none => "fail"
 
+def render : Out → String
+  | .failed => "fail | fail"
+  | .value spec model => s!"ok {hexOfBytes spec} | {showOpt model}"
+  | .generated p spec model => s!"ok {hexOfBytes p} {hexOfBytes spec} | {showOpt model}"
+  | .sanity l1 l2 =>
+      s!"{if l1 then "0" else "-1"} | {match l2 with | some true => "0" | some false => "-1" | none => "?"}"
+  | .g14 => "g14 rfc3526"
+
 def step (_ : Unit) (toks : List String) : Unit × String :=
-  match toks with
-  | ["pub", priv, blind] =>
-      if blind = "FAIL" then ((), "fail | fail") else
-      match bytesOfHex priv, bytesOfHex blind with
-      | some p, some b => ((), s!"ok {hexOfBytes (specPow 2 p)} | {showOpt (generatePub p b)}")
-      | _, _ => ((), "bad-op")
-  | ["compute", pub, priv, blind] =>
-      if blind = "FAIL" then ((), "fail | fail") else
-      match bytesOfHex pub, bytesOfHex priv, bytesOfHex blind with
-      | some y, some p, some b => ((), s!"ok {hexOfBytes (specPow (ofBE y) p)} | {showOpt (compute y p b)}")
-      | _, _, _ => ((), "bad-op")
-  | ["generate", ent, blind] =>
-      if ent = "FAIL" || blind = "FAIL" then ((), "fail | fail") else
-      match bytesOfHex ent, bytesOfHex blind with
-      | some p, some b => ((), s!"ok {hexOfBytes p} {hexOfBytes (specPow 2 p)} | {showOpt (generatePub p b)}")
-      | _, _ => ((), "bad-op")
-  | ["sanity", pub] =>
-      match bytesOfHex pub with
-      | some y =>
-        let l1 := if ofBE y < Spec.DH.p then "0" else "-1"
-        let l2 := match sanitycheck y with | some true => "0" | some false => "-1" | none => "?"
-        ((), s!"{l1} | {l2}")
-      | none => ((), "bad-op")
-  | ["g14"] => ((), "g14 rfc3526")
-  | _ => ((), "bad-op")
+  match parse toks with
+  | some op => ((), render (stepOp op))
+  | none => ((), "bad-op")
 
 def main (_args : List String) : IO UInt32 := loop () step
 
